@@ -70,7 +70,7 @@ CLAIMED = {
                   '+ extracted-model correspondence + oracle on the implementation',
         design='5/C14'),
     'C03': dict(
-        text='UNBOUNDED on a fragment: for every tree - any size, any depth - of one-line plain paragraphs, fenced code blocks (` or ~, any length, any content), block quotes and single-item lists (all markers, padding 1-4; '
+        text='UNBOUNDED on a fragment: for every tree - any size, any depth - of plain paragraphs of one or more lines, ATX headings, fenced code blocks (` or ~, any length, any content), block quotes and single-item lists (all markers, padding 1-4; '
              'siblings separated by a blank line, two lists never adjacent siblings) the block tokenizer of the model returns on the spelled text exactly the pre-token tree '
              'written from the tree (kinds, nesting, start lines, list attributes, loose flags), and Document(lines) - whose depth fuel is proved sufficient for the fragment - holds exactly the token tree written from the tree for every renderer\'s token sets, and the HTML renderer model writes for it exactly the HTML written directly from the tree (CommonMark layout, tight items without <p>, escaped text), also for the text given as one string; a second unbounded fragment - tight nested bullet lists written one item per line, any size and depth - is proved the same way down to the HTML (paragraph interrupted by its sub-list, items ended by the next sibling marker); the proof composes the quote law, the list law, blank-line independence '
              'and the plain-line theorem. Beyond the fragment: kernel-checked on a finite family stated in the theorem (314 one-block trees with containers nested two deep '
@@ -134,7 +134,7 @@ CLAIMED = {
         technique='Coq proof (induction over word/fragment lists) + extracted-model correspondence; meaning clause by generator-oracle',
         design='5/C10'),
     'C09': dict(
-        text='PARTIAL. UNBOUNDED on a fragment: for every tree - any size and depth - of one-line plain paragraphs, fenced code blocks, block quotes and single-item lists, '
+        text='PARTIAL. UNBOUNDED on a fragment: for every tree - any size and depth - of plain paragraphs of one or more lines, ATX headings, fenced code blocks, block quotes and single-item lists, '
              'parsing the spelled text with the Markdown renderer\'s token sets (model of Document(lines)) and rendering it without a line limit gives back exactly the text '
              '(C09_fragment_round_trip; hence same meaning, fixed point, exact normal form); the two side conditions (a fence is not empty, code lines do not begin with white space) are '
              'shown necessary by kernel evaluation and are two of the recorded findings; the same identity is proved for tight nested bullet lists written one item per line (any size, depth, bullet, padding, indentation). Beyond these fragments, proved for ALL token trees about the Gallina model of the Markdown renderer: without a line limit the fragment texts are written '
@@ -174,14 +174,14 @@ CLAIMED = {
         technique='Coq proof (induction over the dispatch loop and reader loops) + extracted-model correspondence + line-recording generator oracle',
         design='5/C13'),
     'C06': dict(
-        text='Unbounded theorems: the flanking classification of the model (is_opener / is_closer) equals the specification\'s left/right flanking with the '
+        text='Unbounded, end to end through the inline phase: the texts *w*, _w_, **w**, __w__ whose inside w (any length) is free of trigger characters and begins and ends with a character that is neither white space nor punctuation tokenize to exactly one Emphasis / Strong holding w, rendered <em>w</em> / <strong>w</strong> (scanner, flanking, process_emphasis, all span finders, candidate tokenizer: C06_simple_emphasis). Unbounded theorems: the flanking classification of the model (is_opener / is_closer) equals the specification\'s left/right flanking with the '
              'underscore restrictions for ALL strings and positions (both character tables regenerated; the implementation\'s sets are proved equal to '
              'sets derived from unicodedata by the CommonMark definition), and closed_by is the negated rule of three on original lengths. Bounded theorems, '
              'kernel-evaluated in 33 shards: the complete inline parse of the model equals an independent Gallina transcription of the specification\'s '
              'delimiter algorithm on EVERY string over {a,space,*,_,.} up to length 7 and over {a,*}, {a,_} up to length 12. Beyond those bounds: the '
              'implementation is compared with the extracted specification algorithm exhaustively to length 8 (thorough: 9) / 14 and on random wide-alphabet strings.',
         note='Trusted: Coq kernel incl. vm_compute, extraction, Spec/Delims.v as the yardstick, the inline model (correspondence-checked). '
-             'No unbounded equality theorem (would need a simulation proof between two stack machines). Three fix: commits.',
+             'No unbounded equality theorem for arbitrary nesting (would need a simulation proof between two stack machines); unbounded only for one pair of runs around plain text. Three fix: commits.',
         technique='Coq proof (boolean case analysis, unbounded) + kernel evaluation of model vs specification on the finite sets + exhaustive implementation-vs-specification comparison',
         design='5/C06'),
     'C12': dict(
